@@ -2,6 +2,7 @@ import P9Model.Driver.K1
 import P9Model.Driver.KVer
 import P9Model.Driver.KIO
 import P9Model.Driver.KQid
+import P9Model.Driver.K4
 /-!
 Line-protocol driver: reads `<mode> key=value …` lines on stdin, prints the model's
 prediction for each on stdout (one line per line). Core library only (compiled `lean_exe`).
@@ -11,6 +12,7 @@ open P9.Driver
 
 structure DState where
   q : QState := {}
+  k4 : K4State := {}
 
 def step (s : DState) (line : String) : DState × String :=
   let toks := parseLine line
@@ -30,6 +32,10 @@ def step (s : DState) (line : String) : DState × String :=
   | some ("kmode", _) => (s, kmode toks)
   | some ("kfromos", _) => (s, kfromos toks)
   | some ("kmapc", _) => (s, kmapc toks)
+  | some ("k4", _) => let (x, o) := k4 s.k4 toks; ({ s with k4 := x }, o)
+  | some ("k4new", _) => let (x, o) := k4new toks; ({ s with k4 := x }, o)
+  | some ("k4stop", _) => let (x, o) := k4stop s.k4 toks; ({ s with k4 := x }, o)
+  | some ("k4end", _) => let (x, o) := k4end s.k4 toks; ({ s with k4 := x }, o)
   | _ => (s, "bad-op")
 
 partial def loop (h : IO.FS.Stream) (o : IO.FS.Stream) (s : DState) : IO Unit := do
